@@ -85,6 +85,9 @@ def norm_self(s):
     s = re.sub(r"heapless::vec::Vec<", "heapless::Vec<", s)
     s = re.sub(r"heapless::string::String<", "heapless::String<", s)
     s = re.sub(r"&'\w+ ", "&", s)
+    # one name per std item whichever facade the configuration names it through (`core::num::NonZero` without std, `std::num::NonZero` with)
+    s = re.sub(r"(?<![\w:])(?:\w+::)+alloc::(?=(string|vec|collections|boxed|borrow)::)", "alloc::", s)    # `extern crate alloc` inside a module
+    s = re.sub(r"(?<![\w:])(core|alloc)::(?=(num|option|result|ops|string|vec|collections|path|boxed|borrow|cell|marker|time|net|ffi)::)", "std::", s)
     return s
 
 
